@@ -41,6 +41,32 @@ func verifC42GenCfg(rt *rapid.T) verifC42Cfg {
 	cfg := verifC42Cfg{}
 	cfg.base = uint32(rapid.IntRange(1, 50).Draw(rt, "base"))
 	cfg.maxTotal = uint64(rapid.IntRange(1, 10000).Draw(rt, "maxTotal"))
+	if rapid.IntRange(0, 2).Draw(rt, "largeByteQuota") == 0 {
+		// the byte quota is a free uint64 of the configuration (production: a few MB; nothing bounds it): large
+		// values biased to powers of two and to values with low-order bits set
+		var v uint64
+		switch rapid.IntRange(0, 4).Draw(rt, "largeKind") {
+		case 0:
+			v = uint64(1) << uint(rapid.IntRange(14, 41).Draw(rt, "pow2"))
+		case 1:
+			v = rapid.SampledFrom([]uint64{100000000, 1000000000, 5000000000, 1 << 24, 1 << 32, 1 << 40}).Draw(rt, "round")
+		case 2:
+			v = (uint64(1) << uint(rapid.IntRange(14, 40).Draw(rt, "pow2a"))) + (uint64(1) << uint(rapid.IntRange(0, 16).Draw(rt, "pow2b")))
+		default:
+			v = rapid.Uint64Range(1<<14, 1<<41).Draw(rt, "anyLarge")
+		}
+		d := uint64(rapid.IntRange(0, 40).Draw(rt, "lowBits"))
+		if rapid.Bool().Draw(rt, "minus") && v > d {
+			v -= d
+		} else {
+			v += d
+		}
+		cfg.maxTotal = v
+		if rapid.Bool().Draw(rt, "manyMessages") {
+			// enough messages of <= 2^32 bytes to fill the byte quota
+			cfg.base = uint32(rapid.IntRange(300, 2000).Draw(rt, "baseLarge"))
+		}
+	}
 	switch rapid.IntRange(0, 3).Draw(rt, "reservedKind") {
 	case 0, 1:
 		cfg.reserved = 0
@@ -157,6 +183,15 @@ func verifC42Check(c *kit.Case, cfg verifC42Cfg, quota uint32, p *verifC42Peer, 
 }
 
 func verifC42GenSize(rt *rapid.T, cfg verifC42Cfg, p *verifC42Peer) uint64 {
+	size := verifC42GenSizeRaw(rt, cfg, p)
+	if size > 1<<32 {
+		// message sizes are message lengths (domain restriction)
+		size = 1 << 32
+	}
+	return size
+}
+
+func verifC42GenSizeRaw(rt *rapid.T, cfg verifC42Cfg, p *verifC42Peer) uint64 {
 	switch rapid.IntRange(0, 11).Draw(rt, "sizeKind") {
 	case 0, 1:
 		return 0
@@ -186,7 +221,7 @@ func verifC42GenSize(rt *rapid.T, cfg verifC42Cfg, p *verifC42Peer) uint64 {
 
 func TestVerifC42_Quota(t *testing.T) {
 	kit.Run(t, "C42", kit.Budget{Quick: 2500, Thorough: 40000, Steps: 50},
-		"config base 1..50 msgs, byte quota 1..10000, reserved 0..90 % (0 in half the cases), threshold 0..30, factor 0..4; program over 4 peers of IncreaseLoad(size in {0,1,quota-1..quota+1, remaining-1..remaining+1, 2^20, any <= 2^32, small}), Reset, ApplyConsensusSize(-2..60); real LRU cacher (capacity 100); oracle = harness counters per peer and window; non-trivial = a peer refused in one window and accepted again after a reset; distinct by (config, trace)",
+		"config base 1..50 msgs (300..2000 with large byte quotas), byte quota 1..10000 or (1/3 of the cases) a large value up to 2^41 biased to powers of two, round numbers and values with low-order bits set, reserved 0..90 % (0 in half the cases), threshold 0..30, factor 0..4; program over 4 peers of IncreaseLoad(size in {0,1,quota-1..quota+1, remaining-1..remaining+1, 2^20, any <= 2^32, small}), fill (byte quota of a peer filled to its last bytes with messages <= 2^32, then 1-byte messages), Reset, ApplyConsensusSize(-2..60); real LRU cacher (capacity 100); oracle = harness counters per peer and window; non-trivial = a peer refused in one window and accepted again after a reset; distinct by (config, trace)",
 		func(rt *rapid.T, c *kit.Case) {
 			cfg := verifC42GenCfg(rt)
 			cacher, err := lrucache.NewCache(100)
@@ -238,6 +273,27 @@ func TestVerifC42_Quota(t *testing.T) {
 					size := uint64(rapid.IntRange(0, 1).Draw(rt, "size"))
 					for i := 0; i < n; i++ {
 						send(rt, name, size)
+					}
+				},
+				"fill": func(rt *rapid.T) {
+					// fill the byte quota of one peer to its last bytes with messages of <= 2^32 bytes, then go on
+					// byte by byte
+					name := rapid.SampledFrom(names).Draw(rt, "peer")
+					p := peers[name]
+					if !p.seen {
+						send(rt, name, uint64(rapid.IntRange(0, 1).Draw(rt, "firstSize")))
+					}
+					short := uint64(rapid.IntRange(0, 2).Draw(rt, "short"))
+					for i := 0; i < 300 && p.sentSum+short < cfg.maxTotal; i++ {
+						chunk := cfg.maxTotal - short - p.sentSum
+						if chunk > 1<<32 {
+							chunk = 1 << 32
+						}
+						send(rt, name, chunk)
+					}
+					n := rapid.IntRange(1, 5).Draw(rt, "ones")
+					for i := 0; i < n; i++ {
+						send(rt, name, 1)
 					}
 				},
 				"reset": func(rt *rapid.T) {
